@@ -7,7 +7,7 @@ import sockcheck
 
 LEAN_MODULES = ["PyAirtouch.Props.C02", "PyAirtouch.Props.C02At4", "PyAirtouch.Props.C02At5"]
 LEVEL = "proof"
-MONITORS = ["c02a", "c02b", "c02c", "c01a"]
+MONITORS = ["c02a", "c02b", "c02c", "c01a", "c01d"]
 
 
 def _boundary_cases():
@@ -26,7 +26,7 @@ def _boundary_cases():
                 s = [("net", "accept"), ("open",), ("adv", 8)]
                 for i in range(1, n):
                     s.append(("send", i, "ok", "idem"))
-                s += [("turn", 2), ("failw", 1), ("net", "refuse" if outage else "accept"), ("send", n, "ok", pol), ("adv", outage or 1),
+                s += [("turn", 2), ("failw", 1, n + (1 if outage else 0)), ("net", "refuse" if outage else "accept"), ("send", n, "ok", pol), ("adv", outage or 1),
                       ("net", "accept"), ("adv", 40)]
                 out.append(("faults", s))
     # a failed write late in the lifetime: the message sits in a blocked drain until `off` ticks before its expiry, the peer
@@ -35,6 +35,21 @@ def _boundary_cases():
         for lat in sorted({1, max(1, off - 1), off, off + 1}):
             out.append(("faults", [("net", "accept"), ("open",), ("adv", 8), ("block", 1), ("send", 1, "ok", "idem"),
                                    ("adv", 240 - off), ("lat", lat), ("peer", "reset"), ("adv", 40 + lat)]))
+    # a single transient write failure of every kind a failing send() can report (peer gone: EPIPE, ECONNRESET; path gone:
+    # ETIMEDOUT, EHOSTUNREACH), then the network behaves: the idempotent command must come first on the next connection
+    for kind in range(4):
+        for pol in ("idem", "nonidem"):
+            for pre in (0, 2):
+                s = [("net", "accept"), ("open",), ("adv", 8)]
+                s += [("send", 10 + i, "ok", "idem") for i in range(pre)]
+                s += [("turn", 3), ("failw", 1, kind), ("send", 1, "ok", pol), ("send", 2, "ok", "idem"), ("adv", 3), ("heal",)]
+                out.append(("faults", s))
+    # the transport is lost on the read side (reset / timed out / unreachable) and a command is sent before the read task has
+    # dealt with it: the write fails with the error the transport was lost with
+    for what in ("reset", "timeout", "unreach"):
+        for turns in (0, 1):
+            out.append(("faults", [("net", "accept"), ("open",), ("adv", 8), ("turn", 3), ("peer", what), ("turn", turns),
+                                   ("send", 1, "ok", "idem"), ("adv", 3), ("heal",)]))
     # peer reset while a drain is blocked, entry with / without retries
     for pol in ("idem", "nonidem"):
         out.append(("faults", [("net", "accept"), ("open",), ("adv", 8), ("block", 1), ("send", 1, "ok", pol), ("turn", 2),
